@@ -233,6 +233,26 @@ def run_reject(case):
         V(viol, 'not-rejected:' + case['name'].split('=')[0], '[Tabulation] %r accepted: nr/cutoff/nrho/cutoff_rho = %r, %d bytes written' % (opts, vals, len(data)))
     except ConfigurationException:
         pass
+    # the rejection is a property of the file, not of the first look: the same parser object asked again (a caller that probes .tabulation in a
+    # try block, an interactive retry) must refuse again - and Configuration.read_from_parser on it must not write a table on default grids
+    from atsim.potentials.config import ConfigParser, Configuration
+    text = '[Tabulation]\ntarget : %s\n%s\n[Pair]\nA-A : as.polynomial 1 2\n[EAM-Embed]\nA : as.polynomial 1 2\n[EAM-Density]\nA : as.polynomial 1 2\n[Species]\nA.atomic_number : 1\nA.atomic_mass : 1.0\n' % (
+        tgt, ''.join('%s : %s\n' % kv for kv in opts.items()))
+    cp = ConfigParser(io.StringIO(text))
+    outcomes = []
+    for attempt in range(3):
+        try:
+            t = cp.tabulation
+            outcomes.append(('accepted', t.nr, t.cutoff, t.nrho, t.cutoff_rho))
+        except ConfigurationException:
+            outcomes.append('rejected')
+    try:
+        data = R.write_tabulation(Configuration().read_from_parser(cp))
+        outcomes.append(('wrote', len(data)))
+    except ConfigurationException:
+        outcomes.append('rejected')
+    if any(o != 'rejected' for o in outcomes) and not viol:
+        V(viol, 'not-rejected-on-second-look:' + case['name'].split('=')[0], '[Tabulation] %r: successive accesses of one ConfigParser give %r' % (opts, outcomes))
     return viol, 1
 
 
